@@ -538,6 +538,44 @@ def static_atomic_rule(prog, rep, only_files=None):
     return n
 
 
+# a discarded answer that is deliberately not looked at: (function, callee) -> reason
+DROPPED_OK = {
+    ("callback_timeo", "events_network_cancel"): "the registration being cancelled is known to exist (the connect attempt in progress registered it); cancellation of an existing registration allocates nothing",
+}
+
+
+def dropped_rule(prog, rep, only_files=None):
+    """"Allocation failure is reported through the return value": in a function that can itself report failure (it returns an int
+    or a pointer), the answer of a callee that can fail for lack of memory (own.alloc_fallible: through its own callees) is not
+    thrown away -- an expression statement or a cast to void.  (`(void)poke(W); return (0);` reports a write as queued and sent
+    when launching it failed.)"""
+    n = 0
+    for f in prog.all_funcs():
+        if f.file.startswith("/") or (only_files is not None and f.file not in only_files):
+            continue
+        if (f.unit.types.get(f.ret) or {}).get("kind") not in ("int", "ptr"):
+            continue
+        parents = {}
+        for e in f.all_elems():
+            for k in e.kids:
+                if k is not None:
+                    parents.setdefault(id(k), []).append(e)
+        conds = set(id(b.cond) for b in f.blocks.values() if b.cond is not None)
+        for c in f.calls():
+            if not c.callee or own.alloc_fallible(prog, f, c.callee) is None:
+                continue
+            n += 1
+            ps = parents.get(id(c), [])
+            dropped = (not ps and id(c) not in conds) or (bool(ps) and all(p.cls == "CStyleCastExpr" and p.ty == "void" for p in ps))
+            if dropped and (f.name, c.callee) in DROPPED_OK:
+                rep.ok("DROPPED", "%s in %s" % (c.text[:50], f.name), c.where, "frozen exception: " + DROPPED_OK[(f.name, c.callee)])
+                continue
+            rep.check(not dropped, "DROPPED", "%s in %s: the answer is looked at" % (c.text[:50], f.name), c.where,
+                      "%s() can fail for lack of memory and says so through its return value, which is thrown away here: %s() goes on to report whatever it "
+                      "reports as if the call had worked" % (c.callee, f.name), function=f.name, construct="dropped:" + c.callee)
+    return n
+
+
 def reported_rule(prog, rep, only_files=None):
     """"Allocation failure is reported": from the NULL edge of every tested acquisition, every return that can be reached
     carries the function's failure value (non-zero for int functions, NULL for pointer functions) -- a cleanup ladder that
@@ -831,6 +869,8 @@ def run(tier):
         reserve_flag_rule(prog, rep)
         infallible_rule(prog, rep)
         reported_rule(prog, rep)
+        if dropped_rule(prog, rep) < 50:
+            rep.defer_broken("DROPPED: fewer than 50 calls of functions that can fail for lack of memory found")
         if static_atomic_rule(prog, rep) < 3:
             rep.defer_broken("ATOMIC-static: fewer than 3 tested acquisitions found in units that keep integer bookkeeping at file scope")
         if destroy_then_fail_rule(prog, rep) < 20:
